@@ -1,8 +1,8 @@
 package props
 
 import (
-	"strings"
 	"fmt"
+	"strings"
 	"testing"
 
 	cose "github.com/veraison/go-cose"
